@@ -741,6 +741,21 @@ def raw_model(cases):
     return out
 
 
+def print_model(cases):
+    """the Lean specification printer (Model/TmplPrint.lean): -> list of (source, hypothesis of the
+    inversion theorem holds for the reading mode of the case) | None"""
+    if not cases:
+        return []
+    out = []
+    for a, c in zip(proto.run_lines(model_lines('printtext', cases)), cases):
+        if a in ('unmodelled', 'bad-op', 'bad-line'):
+            out.append(None)
+            continue
+        v = proto.dec(a)
+        out.append((v[0], str(v[2] if lookup_of(c) == 'strict' else v[1]) == 'T'))
+    return out
+
+
 # --------------------------------------------------------------------------
 # character level: the scanners of the text templates (Model/TmplScan.lean)
 
@@ -1010,6 +1025,20 @@ def shard(arg):
             if rend != b2:
                 res.disagreements.append({'stream': 'raw-text-render', 'case': c, 'model': repr(rend)[:600],
                                           'real': repr(b2)[:600], 'source': G.source(c['lang'], c['nodes'])})
+        # the specification printer the inversion theorem (raw_print_roundtrip) is about = the printer
+        # that wrote the sources of every other stream; and how many generated templates are inside
+        # the hypothesis of the theorem
+        tc = [c for c in cases if c['lang'] != 'markup']
+        for c, pm in zip(tc, print_model(tc)):
+            if pm is None:
+                res.count('print-text:unmodelled')
+                continue
+            res.streams['print-text'] = res.streams.get('print-text', 0) + 1
+            src = G.source(c['lang'], c['nodes'])
+            if pm[0] != src:
+                res.disagreements.append({'stream': 'print-text', 'case': c, 'model': repr(pm[0])[:600],
+                                          'real': repr(src)[:600], 'source': src})
+            res.count('inversion-hypothesis:%s:%s' % (c['lang'], 'inside' if pm[1] else 'outside'))
         scan_part(res, random.Random('%s/%s/C04-scan' % (seed, idx)), min(600, max(20, (3 * n) // 8)))
     res.samples = [{'lang': c['lang'], 'source': G.source(c['lang'], c['nodes']), 'data': c['data']} for c in cases[:2]]
     return res
